@@ -52,6 +52,8 @@ type Engine struct {
 	pureCache   map[*ssa.Function]bool
 	implCache   map[*ssa.Function]*FuncContract
 	skipped     []string
+	curRoot     *ssa.Function
+	curScope    []*ssa.Function // root and the functions currently being inlined
 }
 
 var repoPkgPaths = []string{"gorm.io/gorm", "gorm.io/gorm/clause", "gorm.io/gorm/callbacks", "gorm.io/gorm/schema", "gorm.io/gorm/utils", "gorm.io/gorm/migrator"}
@@ -704,11 +706,44 @@ func (e *Engine) eventsFor(kind, key string) []*Event {
 		if ev.Kind != kind {
 			continue
 		}
+		short := key
+		if i := strings.Index(ev.Key, "."); kind == "call" && i > 0 && !strings.HasPrefix(ev.Key, "(") {
+			// "gorm.(*DB).AddError" names the callee with its package
+			short = ev.Key[i+1:]
+			if ev.Key[i+1:] != key && ev.Key != key {
+				continue
+			}
+			_ = short
+			if len(ev.In) > 0 && !e.eventInScope(ev) {
+				continue
+			}
+			out = append(out, ev)
+			continue
+		}
 		if ev.Key == key || ev.Key == "*" || (kind == "invoke" && strings.HasPrefix(ev.Key, "*.") && strings.HasSuffix(key, ev.Key[1:])) {
+			if len(ev.In) > 0 && !e.eventInScope(ev) {
+				continue
+			}
 			out = append(out, ev)
 		}
 	}
 	return out
+}
+
+// eventInScope: events restricted with `in` fire only while verifying (or inlining into) those functions.
+func (e *Engine) eventInScope(ev *Event) bool {
+	if e.curRoot == nil {
+		return true
+	}
+	for _, fn := range e.curScope {
+		name := e.shortName(fn)
+		for _, p := range ev.In {
+			if globMatch(p, name) {
+				return true
+			}
+		}
+	}
+	return false
 }
 
 func globMatch(pat, s string) bool {
@@ -927,11 +962,18 @@ func (e *Engine) contractTouchesGhost(fc *FuncContract) bool {
 func (e *Engine) resolveImmutables() {
 	for _, im := range e.contracts.Immutables {
 		parts := strings.SplitN(im.Field, ".", 2)
-		pkg := e.pkgByPath(im.PkgPath)
-		if pkg == nil || len(parts) != 2 {
+		if len(parts) != 2 {
 			continue
 		}
-		obj := pkg.Scope().Lookup(parts[0])
+		var obj types.Object
+		for _, pp := range append([]string{im.PkgPath}, repoPkgPaths...) {
+			if pkg := e.pkgByPath(pp); pkg != nil {
+				if o := pkg.Scope().Lookup(parts[0]); o != nil {
+					obj = o
+					break
+				}
+			}
+		}
 		if obj == nil {
 			continue
 		}
